@@ -194,7 +194,7 @@ class Supervisor:
                     with self.lock:
                         self.harness_errors.append("driver exited rc=%s after finishing range %d-%d" % (rc, a, b))
                 return b
-        self.investigate(cur, timed_out, rc)
+        self.investigate(cur, timed_out, rc, a)
         return cur + 1
 
     def cleanup_scratch(self, pid):
@@ -217,7 +217,21 @@ class Supervisor:
         self.cleanup_scratch(p.pid)
         return p.returncode, out.decode(errors="replace"), err.decode(errors="replace"), to
 
-    def investigate(self, case, timed_out, rc):
+    def run_span(self, first, last, timeout):
+        """Run cases first..last in ONE process (history-dependent failures); returns (rc, out, err, timed_out)."""
+        p = subprocess.Popen(self.cmd("--from", str(first), "--to", str(last + 1), "--verbose"), env=self.env,
+                             stdout=subprocess.PIPE, stderr=subprocess.PIPE)
+        try:
+            out, err = p.communicate(timeout=timeout)
+            to = False
+        except subprocess.TimeoutExpired:
+            p.kill()
+            out, err = p.communicate()
+            to = True
+        self.cleanup_scratch(p.pid)
+        return p.returncode, out.decode(errors="replace"), err.decode(errors="replace"), to
+
+    def investigate(self, case, timed_out, rc, range_start=None):
         if timed_out:
             rc2, out, err, to = self.run_single(case, self.case_timeout * 10)
             if not to and rc2 == 0:
@@ -238,12 +252,31 @@ class Supervisor:
                     self.add_viol(self.prop, "hang:" + last_stage(out), "case %d hung on re-run" % case, "", case)
                 return
         if rc2 == 0:
-            # Not reproducible alone: re-run once more; report as harness flake (inconclusive), never as violation.
+            # Not reproducible alone: the failure may depend on what ran earlier in the same process.  Re-run the
+            # cases of the batch up to this one in one process.
+            if range_start is not None and range_start < case:
+                rc3, out3, err3, to3 = self.run_span(range_start, case, self.case_timeout * 10)
+                if rc3 != 0 and not to3:
+                    key, summary = classify_crash(err3, rc3)
+                    with self.lock:
+                        self.crashes += 1
+                        self.add_viol(self.spec.get("crash_prop", self.prop), "crash:" + key + ":after-earlier-cases-in-process",
+                                      "case %d crashes only after cases %d..%d ran in the same process (rc=%s)\n%s" % (case, range_start, case - 1, rc3, summary),
+                                      "cases %d..%d in one process" % (range_start, case), case)
+                    return
             self.absorb_single_output(out)
             with self.lock:
-                self.harness_errors.append("case %d died in batch (rc=%s) but passed alone" % (case, rc))
+                self.harness_errors.append("case %d died in batch (rc=%s) but passed alone and in a re-run of its batch" % (case, rc))
             return
         key, summary = classify_crash(err, rc2)
+        for _ in range(2):
+            # a stack-overflow report is sometimes cut short (the unwinder itself runs out of stack): try again
+            if key != "asan:stack-overflow":
+                break
+            rc3, out3, err3, to3 = self.run_single(case, self.case_timeout * 10)
+            if rc3 != 0 and not to3:
+                key, summary = classify_crash(err3, rc3)
+                out = out3
         stage = last_stage(out)
         with self.lock:
             self.crashes += 1
@@ -360,8 +393,15 @@ def classify_crash(err, rc):
         if len(frames) >= 2:
             break
     key = kind + ("@" + "<".join(frames) if frames else "")
-    summary = "\n".join(err.splitlines()[:40])
-    return key, summary
+    lines = err.splitlines()
+    start = 0
+    for i, l in enumerate(lines):
+        if "ERROR: AddressSanitizer" in l or "runtime error:" in l or "terminate called" in l:
+            start = i
+            break
+    summary = "\n".join(lines[start:start + 30])
+    head = "\n".join(lines[:12]) if start > 0 else ""
+    return key, (head + "\n...\n" + summary) if head else summary
 
 
 def write_replay(prop, key, info, sup):
